@@ -14,6 +14,9 @@ type PipeConfig struct {
 	ReadMax  []int         // candidate limits for the bytes returned by one Read (0 = unlimited); one is drawn per Read
 	WriteMax []int         // candidate sizes of the pieces a Write is delivered in (0 = whole); one is drawn per piece
 	Latency  time.Duration // fake time a piece spends on the wire (the writer waits)
+	// EOFWithData: the Read that delivers the last bytes of the stream reports the end of the stream in the same
+	// call (n > 0, io.EOF), as the io.Reader contract allows and files, sockets and buffered readers do
+	EOFWithData bool
 }
 
 // Fault kinds applied to the reader's view of the stream at a byte offset.
@@ -65,6 +68,7 @@ type Pipe struct {
 	ReadCalls     int
 	inflight      int
 	MaxInflight   int // >1 means two Write calls overlapped in this direction
+	EOFsWithData  int
 	FragmentReads int // reads that returned less than was available or split a Write
 	Coalesced     int // reads that returned bytes of more than one Write
 	writeEnds     []int64
@@ -315,6 +319,21 @@ func (p *Pipe) Read(b []byte) (int, error) {
 			if e > start && e < p.consumed {
 				p.Coalesced++
 				break
+			}
+		}
+		if p.cfg.EOFWithData && n > 0 {
+			if p.fault.Kind == FaultEOF && p.fault.At >= 0 && p.consumed >= p.fault.At {
+				p.faultFired = true
+				p.buf = nil
+				p.readerGone = true
+				p.EOFsWithData++
+				p.mu.Unlock()
+				return n, io.EOF
+			}
+			if p.fault.Kind == FaultNone && len(p.buf) == 0 && p.wclosed {
+				p.EOFsWithData++
+				p.mu.Unlock()
+				return n, io.EOF
 			}
 		}
 		p.mu.Unlock()
